@@ -411,14 +411,6 @@ func SyncOp(site int) {
 	}
 }
 
-// Addr once evaluated f (the address of the component of a package variable a statement
-// touches) for the vector-clock monitor. Ordering is now judged by the race detector (lane
-// R); the hooks are yield points only and the address is not needed, so f is not evaluated.
-func Addr(f func() any) any { return nil }
-
-// LastSite returns the site of the task's most recent yield.
-func (t *Task) LastSite() int { return t.lastSite }
-
 // CallDepth lets the harness mark the running task as inside (1) / outside (0) a library call.
 func CallDepth(d int) {
 	if s := sched; s != nil && s.cur != nil {
@@ -757,26 +749,6 @@ func Go(site int, f func()) {
 	go f()
 }
 
-// Go1..Go8 replace `go F(a, ...)`: F and the arguments are evaluated here, at the statement.
-func Go1[A any](site int, f func(A), a A)                       { Go(site, func() { f(a) }) }
-func Go2[A, B any](site int, f func(A, B), a A, b B)            { Go(site, func() { f(a, b) }) }
-func Go3[A, B, C any](site int, f func(A, B, C), a A, b B, c C) { Go(site, func() { f(a, b, c) }) }
-func Go4[A, B, C, D any](site int, f func(A, B, C, D), a A, b B, c C, d D) {
-	Go(site, func() { f(a, b, c, d) })
-}
-func Go5[A, B, C, D, E any](site int, f func(A, B, C, D, E), a A, b B, c C, d D, e E) {
-	Go(site, func() { f(a, b, c, d, e) })
-}
-func Go6[A, B, C, D, E, F any](site int, f func(A, B, C, D, E, F), a A, b B, c C, d D, e E, g F) {
-	Go(site, func() { f(a, b, c, d, e, g) })
-}
-func Go7[A, B, C, D, E, F, G any](site int, f func(A, B, C, D, E, F, G), a A, b B, c C, d D, e E, g F, h G) {
-	Go(site, func() { f(a, b, c, d, e, g, h) })
-}
-func Go8[A, B, C, D, E, F, G, H any](site int, f func(A, B, C, D, E, F, G, H), a A, b B, c C, d D, e E, g F, h G, i H) {
-	Go(site, func() { f(a, b, c, d, e, g, h, i) })
-}
-
 // Bind0 makes the closure that stands for a method value of a sync primitive.
 func Bind0[T any](shim func(int, *T), site int, r *T) func() { return func() { shim(site, r) } }
 
@@ -852,50 +824,4 @@ func RegisterGlobals(pkg string, gs []Global) {
 	for _, g := range gs {
 		Globals = append(Globals, Global{Name: pkg + "." + g.Name, Ptr: g.Ptr})
 	}
-}
-
-// GoRn / GoRRn: the callee of a go statement returns one / two values (discarded).
-func GoR0[R any](site int, f func() R)                        { Go(site, func() { f() }) }
-func GoRR0[R1, R2 any](site int, f func() (R1, R2))           { Go(site, func() { f() }) }
-func GoR1[A, R any](site int, f func(A) R, a0 A)              { Go(site, func() { f(a0) }) }
-func GoRR1[A, R1, R2 any](site int, f func(A) (R1, R2), a0 A) { Go(site, func() { f(a0) }) }
-func GoR2[A, B, R any](site int, f func(A, B) R, a0 A, b1 B)  { Go(site, func() { f(a0, b1) }) }
-func GoRR2[A, B, R1, R2 any](site int, f func(A, B) (R1, R2), a0 A, b1 B) {
-	Go(site, func() { f(a0, b1) })
-}
-func GoR3[A, B, C, R any](site int, f func(A, B, C) R, a0 A, b1 B, c2 C) {
-	Go(site, func() { f(a0, b1, c2) })
-}
-func GoRR3[A, B, C, R1, R2 any](site int, f func(A, B, C) (R1, R2), a0 A, b1 B, c2 C) {
-	Go(site, func() { f(a0, b1, c2) })
-}
-func GoR4[A, B, C, D, R any](site int, f func(A, B, C, D) R, a0 A, b1 B, c2 C, d3 D) {
-	Go(site, func() { f(a0, b1, c2, d3) })
-}
-func GoRR4[A, B, C, D, R1, R2 any](site int, f func(A, B, C, D) (R1, R2), a0 A, b1 B, c2 C, d3 D) {
-	Go(site, func() { f(a0, b1, c2, d3) })
-}
-func GoR5[A, B, C, D, E, R any](site int, f func(A, B, C, D, E) R, a0 A, b1 B, c2 C, d3 D, e4 E) {
-	Go(site, func() { f(a0, b1, c2, d3, e4) })
-}
-func GoRR5[A, B, C, D, E, R1, R2 any](site int, f func(A, B, C, D, E) (R1, R2), a0 A, b1 B, c2 C, d3 D, e4 E) {
-	Go(site, func() { f(a0, b1, c2, d3, e4) })
-}
-func GoR6[A, B, C, D, E, F, R any](site int, f func(A, B, C, D, E, F) R, a0 A, b1 B, c2 C, d3 D, e4 E, f5 F) {
-	Go(site, func() { f(a0, b1, c2, d3, e4, f5) })
-}
-func GoRR6[A, B, C, D, E, F, R1, R2 any](site int, f func(A, B, C, D, E, F) (R1, R2), a0 A, b1 B, c2 C, d3 D, e4 E, f5 F) {
-	Go(site, func() { f(a0, b1, c2, d3, e4, f5) })
-}
-func GoR7[A, B, C, D, E, F, G, R any](site int, f func(A, B, C, D, E, F, G) R, a0 A, b1 B, c2 C, d3 D, e4 E, f5 F, g6 G) {
-	Go(site, func() { f(a0, b1, c2, d3, e4, f5, g6) })
-}
-func GoRR7[A, B, C, D, E, F, G, R1, R2 any](site int, f func(A, B, C, D, E, F, G) (R1, R2), a0 A, b1 B, c2 C, d3 D, e4 E, f5 F, g6 G) {
-	Go(site, func() { f(a0, b1, c2, d3, e4, f5, g6) })
-}
-func GoR8[A, B, C, D, E, F, G, H, R any](site int, f func(A, B, C, D, E, F, G, H) R, a0 A, b1 B, c2 C, d3 D, e4 E, f5 F, g6 G, h7 H) {
-	Go(site, func() { f(a0, b1, c2, d3, e4, f5, g6, h7) })
-}
-func GoRR8[A, B, C, D, E, F, G, H, R1, R2 any](site int, f func(A, B, C, D, E, F, G, H) (R1, R2), a0 A, b1 B, c2 C, d3 D, e4 E, f5 F, g6 G, h7 H) {
-	Go(site, func() { f(a0, b1, c2, d3, e4, f5, g6, h7) })
 }
